@@ -28,6 +28,12 @@ type procSpec struct {
 	Post   int        `json:"post"`   // tasks after
 	Target int        `json:"target"` // thrower: index of the target process (catcher or waiting), -1 none
 	Prog   *gen.Block `json:"prog,omitempty"`
+	// catcher: the catch event carries ExtraDefs more definitions (signals and
+	// messages) besides its message; with ParMulti it is a parallel-multiple
+	// catch event, which continues only when every definition has been matched.
+	// A message flow wakes the referenced catch event - whatever it listens for.
+	ExtraDefs int  `json:"extraDefs,omitempty"`
+	ParMulti  bool `json:"parMulti,omitempty"`
 }
 
 type action struct {
@@ -103,6 +109,14 @@ func build(d descriptor) *built {
 			addTasks(ps.Pre)
 			c := b.Add(gen.KCatch)
 			c.Defs = []gen.EventDef{{Kind: "message", Ref: fmt.Sprintf("msg_%d", i)}}
+			for k := 0; k < ps.ExtraDefs; k++ {
+				if k%2 == 0 {
+					c.Defs = append(c.Defs, gen.EventDef{Kind: "signal", Ref: fmt.Sprintf("sigx_%d_%d", i, k)})
+				} else {
+					c.Defs = append(c.Defs, gen.EventDef{Kind: "message", Ref: fmt.Sprintf("msgx_%d_%d", i, k)})
+				}
+			}
+			c.ParallelMul = ps.ParMulti && len(c.Defs) > 1
 			b.Connect(cur, c)
 			cur = c
 			bp.hook = c.ID
@@ -131,13 +145,18 @@ func build(d descriptor) *built {
 	sb.WriteString("</bpmn:collaboration>\n")
 	prog := &gen.Program{DefaultLang: "expr"}
 	msgs := map[string]bool{}
+	sigs := map[string]bool{}
 	for _, bp := range bt.procs {
 		fmt.Fprintf(&sb, `<bpmn:process id="%s" isExecutable="%v">`+"\n", bp.id, bp.spec.Kind != "waiting")
 		sb.WriteString(gen.GraphXML(bp.g, prog))
 		sb.WriteString("</bpmn:process>\n")
 		bp.g.AllNodes(func(n *gen.Node, _ *gen.Graph) {
 			for _, dd := range n.Defs {
-				msgs[dd.Ref] = true
+				if dd.Kind == "signal" {
+					sigs[dd.Ref] = true
+				} else {
+					msgs[dd.Ref] = true
+				}
 			}
 		})
 	}
@@ -148,6 +167,14 @@ func build(d descriptor) *built {
 	sort.Strings(keys)
 	for _, m := range keys {
 		fmt.Fprintf(&sb, `<bpmn:message id="%s" name="%s"/>`+"\n", m, m)
+	}
+	skeys := make([]string, 0, len(sigs))
+	for m := range sigs {
+		skeys = append(skeys, m)
+	}
+	sort.Strings(skeys)
+	for _, m := range skeys {
+		fmt.Fprintf(&sb, `<bpmn:signal id="%s" name="%s"/>`+"\n", m, m)
 	}
 	sb.WriteString("</bpmn:definitions>\n")
 	bt.xml = sb.String()
@@ -287,11 +314,25 @@ func runCase(d descriptor) *result {
 			case "catcher":
 				for _, x := range insts {
 					if x.proc == ti {
-						o := x.m.Event(model.Ev{Kind: "message", Ref: fmt.Sprintf("msg_%d", ti)})
-						if len(o.Fired) > 0 {
+						// the wake-up hands the process one event per definition of the
+						// catch event (signals, then messages)
+						woke := false
+						hook := tp.g.Node(tp.hook)
+						for _, kind := range []string{"signal", "message"} {
+							for _, df := range hook.Defs {
+								if df.Kind != kind {
+									continue
+								}
+								o := x.m.Event(model.Ev{Kind: df.Kind, Ref: df.Ref})
+								if len(o.Fired) > 0 {
+									woke = true
+								}
+								apply(x, o)
+							}
+						}
+						if woke {
 							r.Woken++
 						}
-						apply(x, o)
 					}
 				}
 			}
@@ -588,6 +629,10 @@ func draw(rt *rapid.T) descriptor {
 	for i := 0; i < nExec; i++ {
 		k := rapid.SampledFrom([]string{"plain", "prog", "thrower", "catcher"}).Draw(rt, "kind")
 		sp := procSpec{Kind: k, Pre: rapid.IntRange(0, 2).Draw(rt, "pre"), Post: rapid.IntRange(0, 1).Draw(rt, "post"), Target: -1}
+		if k == "catcher" && rapid.Bool().Draw(rt, "multiDef") {
+			sp.ExtraDefs = rapid.IntRange(1, 2).Draw(rt, "extraDefs")
+			sp.ParMulti = rapid.Bool().Draw(rt, "parMulti")
+		}
 		if k == "prog" {
 			// a C01-style program; no loops (answers carry no results), no
 			// inclusive blocks (their join window needs the lock-step driver)
